@@ -685,6 +685,23 @@ def replay_chooser(choices):
     return choose
 
 
+def deviation_chooser(devs):
+    """iterative context bounding: the default policy keeps running the thread that ran last (when it is blocked or done: the
+    first enabled candidate); `devs` maps a decision number (index into Sched.choices) to the candidate taken there instead"""
+    def choose(sched, cands):
+        n = len(sched.choices)
+        if n in devs:
+            return devs[n] % len(cands)
+        last = sched._last
+        if last is not None:
+            for i, c in enumerate(cands):
+                if c is last:
+                    return i
+        return 0
+
+    return choose
+
+
 def pct_chooser(seed, depth=2, est_steps=200):
     """PCT: random priorities, `depth-1` priority change points (Burckhardt et al.)"""
     rng = random.Random(seed)
